@@ -1,5 +1,6 @@
 import JunoModel.Common.Proto
 import JunoModel.C20.Model
+import JunoModel.C20.Heap
 /-!
 Line-protocol driver for the C20 model (`lake build c20drv`). All numbers are decimal.
 
@@ -125,6 +126,7 @@ def Tables.toBase (t : Tables) : Base :=
 
 structure DState where
   store : Store := none
+  hstore : HStore := {}   -- the pointer-level model, run in lockstep and cross-checked
   addrs : List Nat := []
   slots : List Nat := []
   chs   : List Nat := []
@@ -160,12 +162,14 @@ def doApply (s : DState) (u : Update) (num baseTx oldest cls : String) : DState 
   match nat? num, nat? baseTx, nat? oldest, pairs? cls with
   | some n, some t, some o, some c =>
     let (st', out) := applyUpdate s.store u n t o c.reverse
-    ({ s with store := st' }, showOutcome out)
+    let (hs', hout) := happlyUpdate s.hstore u n t o c.reverse
+    let agree := showOutcome out == showOutcome hout
+    ({ s with store := st', hstore := hs' }, if agree then showOutcome out else "HEAP-MISMATCH " ++ showOutcome hout)
   | _, _, _, _ => (s, "bad-op")
 
 def step (s : DState) (line : String) : DState × String :=
   match words line with
-  | ["reset"] => ({ s with store := none, bases := [] }, "ok")
+  | ["reset"] => ({ s with store := none, hstore := {}, bases := [] }, "ok")
   | ["apply", "B", num, baseTx, oldest, cls, ident, verOk, txs] =>
     match nat? verOk, parseTxs? txs with
     | some v, some txs => doApply s (.block ident (v != 0) txs) num baseTx oldest cls
@@ -177,11 +181,19 @@ def step (s : DState) (line : String) : DState × String :=
   | ["apply", "N", num, baseTx, oldest, cls] => doApply s .noChange num baseTx oldest cls
   | ["advance", o] =>
     match nat? o with
-    | some o => let (st', b) := advanceTo s.store o; ({ s with store := st' }, toString b)
+    | some o =>
+      let (st', b) := advanceTo s.store o
+      let (hs', hb) := hadvanceTo s.hstore o
+      ({ s with store := st', hstore := hs' }, if b == hb then toString b else "HEAP-MISMATCH")
     | none => (s, "bad-op")
   | ["snap", b] =>
     match nat? b with
-    | some b => (s, showView (snapshotFor s.store b))
+    | some b =>
+      let v := snapshotFor s.store b
+      let hv := hsnapshotFor s.hstore b
+      let same := hv.length == v.length &&
+        ((hv.view s.hstore.heap).map showEntry) == (v.newestFirst.map showEntry)
+      (s, if same then showView v else "HEAP-MISMATCH " ++ showView (hv.abs s.hstore.heap))
     | none => (s, "bad-op")
   | ["snapn", b] =>
     match nat? b with
